@@ -7,6 +7,37 @@ BASE = 'CONSTANTS\n  Supported = {"x509", "sha256", "extern"}\n  Strict = {"x509
 INVS = "INVARIANTS AcceptSound NoSilentTruncation WellFormedAccepted\n"
 
 
+def stream_cases(c, init, tier, part, stats, base, sample=1, prefix=""):
+    """Bulk variant: TLC output to a file, cases streamed to the workers; returns (results, deaths, lookup, n)."""
+    cfg = BASE % (tier, part) + "INIT %s\nNEXT Next\n%sCONSTRAINT Emit\nCHECK_DEADLOCK FALSE\n" % (init, INVS)
+    r, path = c.tlc_to_file("MC_Esl", "run.cfg", files={"run.cfg": cfg}, name="esl-%s-%s-%s" % (init, tier, part), heap="12g")
+
+    def keep(ev):
+        with stats.lock:
+            stats.n += 1
+            e = ev.get("expect")
+            stats.by_expect[e] = stats.by_expect.get(e, 0) + 1
+            if ev.get("alloc", 0) > stats.max_alloc:
+                stats.max_alloc = ev["alloc"]
+        if ev.get("model_mismatch"):
+            stats.mismatch.append(ev)
+        return not ev.get("agree", False) or ev.get("alloc", 0) > ALLOC_LIMIT or ev.get("outcome") not in ("value", "error")
+    lines = c.printed_lines(path)
+    if sample > 1:
+        lines = (l for i, l in enumerate(lines) if i % sample == 0)
+    res, deaths, lookup, n = c.run_worker_stream("esl", lines, keep, base=base)
+    os.remove(path)
+    return res, deaths, lookup, n
+
+
+class LookupItems(dict):
+    def __init__(self, lookup):
+        self.lookup = lookup
+
+    def __missing__(self, k):
+        return self.lookup(k)
+
+
 def enumerate_cases(c, init, tier, part="all", workers=None, name=None):
     """One TLC run: model-check the decoder specification on the bounded case space (design-level C07/C08
     statements as invariants) and emit every case with its three-valued expectation."""
